@@ -244,7 +244,10 @@ def items(tier):
                 out.append((lab, d, tuple(modes), 1))
         if scalar or tier == "thorough":
             out.append((lab, "none", ("rev",), 2))
-            if tier == "thorough":
+            if tier == "thorough" and not lab.startswith("dict-valued output"):
+                # (not for the dict-valued primitive: its forward rule returns a plain dict of tangents, which is right at
+                # order 1 but opaque to an enclosing trace, and autograd's own dict constructor has no forward rule - a
+                # second-order forward check of it would test my planted rule, not the checker)
                 out.append((lab, "none", ("fwd", "rev"), 2))
             if scalar:
                 out.append((lab, "order2-only", ("rev",), 2))
@@ -495,9 +498,92 @@ def _slab_probability():
     return round(1.0 - acc, 6)
 
 
+def history_items():
+    """the checker's verdict must not depend on which checks ran before it in the same interpreter (nor may it edit the
+    caller's `modes` list): sequences of check_grads calls on concrete float64 draws (real numpy.random), in a child
+    interpreter so that nothing of this process's patching is in the way"""
+    import json
+    import subprocess
+    import sys
+
+    env = dict(os.environ)
+    env["PYTHONPATH"] = runner.REPO + os.pathsep + runner.VERIF
+    p = subprocess.run([sys.executable, "-c", _HISTORY_CHILD], env=env, capture_output=True, text=True, timeout=600)
+    key = "CHK history | verdicts of check_grads before / after unrelated checks that raise (missing forward rule, wrong rule, non-scalar), default and caller-owned modes lists"
+    if p.returncode != 0:
+        return [{"key": key, "status": "error", "detail": "child failed: " + p.stderr[-300:], "paths": 0, "queries": 0, "validated": 0, "verdicts": {}}]
+    d = json.loads(p.stdout.strip().splitlines()[-1])
+    return [{"key": key, "status": "holds" if not d["problems"] else "violation", "detail": "; ".join(d["problems"])[:600], "paths": d["calls"], "queries": 0, "validated": d["calls"] if not d["problems"] else 0,
+             "verdicts": {}, "cex": None if not d["problems"] else {"env": {}, "mode": "check_grads"}}]
+
+
+_HISTORY_CHILD = r"""
+import json, warnings
+warnings.filterwarnings("ignore")
+import numpy as onp, numpy.random as npr
+import autograd.numpy as np
+from autograd.extend import primitive, defvjp, defjvp
+from autograd.test_util import check_grads
+
+def mk(vjp_k, jvp_k):
+    @primitive
+    def cube(x):
+        return x ** 3
+    if vjp_k is not None:
+        defvjp(cube, lambda ans, x: lambda g: g * 3.0 * x ** 2 * vjp_k)
+    if jvp_k is not None:
+        defjvp(cube, lambda g, ans, x: g * 3.0 * x ** 2 * jvp_k)
+    return cube
+
+good, bad_fwd, bad_rev, rev_only, fwd_only = mk(1.0, 1.0), mk(1.0, 1.5), mk(1.5, 1.0), mk(1.0, None), mk(None, 1.0)
+x = onp.array([0.7, -1.3])
+calls = [0]
+def verdict(f, **kw):
+    calls[0] += 1
+    npr.seed(calls[0])
+    try:
+        check_grads(f, **kw)(x)
+        return "accept"
+    except AssertionError:
+        return "reject"
+    except Exception as e:
+        return "raises " + type(e).__name__
+
+problems = []
+MODES = ["fwd", "rev"]
+subjects = [("correct rules", good, {}), ("wrong forward rule", bad_fwd, {}), ("wrong reverse rule", bad_rev, {}), ("wrong forward rule, caller-owned modes list", bad_fwd, {"modes": MODES}),
+            ("wrong forward rule, order 1", bad_fwd, {"order": 1}), ("reverse rule only, modes=['rev']", rev_only, {"modes": ["rev"]})]
+fresh = {lab: verdict(f, **kw) for lab, f, kw in subjects}
+for lab, want in (("correct rules", "accept"), ("wrong forward rule", "reject"), ("wrong reverse rule", "reject"), ("wrong forward rule, caller-owned modes list", "reject")):
+    if fresh[lab] != want:
+        problems.append("first call: %s -> %s" % (lab, fresh[lab]))
+disturbers = [("a function with no forward rule, default modes", lambda: verdict(rev_only)), ("a function with no reverse rule, default modes", lambda: verdict(fwd_only)),
+              ("a function with no forward rule, the caller's modes list", lambda: verdict(rev_only, modes=MODES)), ("a wrong rule (rejected)", lambda: verdict(bad_rev)),
+              ("a non-differentiable argument", lambda: (calls.__setitem__(0, calls[0] + 1), _try(lambda: check_grads(good)("abc")))[0]),
+              ("a check at order 3", lambda: verdict(good, order=3))]
+def _try(th):
+    try:
+        th()
+    except Exception:
+        pass
+for dlab, d in disturbers:
+    d()
+    for lab, f, kw in subjects:
+        v = verdict(f, **kw)
+        if v != fresh[lab]:
+            problems.append("after checking %s: %s -> %s (first call: %s)" % (dlab, lab, v, fresh[lab]))
+    if MODES != ["fwd", "rev"]:
+        problems.append("after checking %s the caller's modes list is %r" % (dlab, MODES))
+        MODES[:] = ["fwd", "rev"]
+print(json.dumps({"problems": problems[:8], "calls": calls[0]}))
+"""
+
+
 def main(tier, only=None):
     t0 = time.time()
     results = runner.run_items(MOD, tier)
+    if not only:
+        results += history_items()
     return runner.finish(
         ID, tier, results, t0,
         functions=["autograd.test_util:check_grads", "autograd.test_util:check_vjp", "autograd.test_util:check_jvp", "autograd.test_util:check_equivalent", "autograd.test_util:make_numerical_jvp (EPS=1e-6 central difference)",
